@@ -276,4 +276,7 @@ var Session = harness.Define(harness.Opts{
 	Name:  "session",
 	Rule:  "2-4 calls (GetSTH, AddChain or AddPreChain, or a mix) on ONE client instance holding the log key; every call has its own truthful answer (timestamps / tree sizes / roots / extensions from small pools so that honest republications and changed values both occur; submissions alternate between two chains and between the issuer certificate and a same-name twin with another key) under 0-2 mutations, and three quarters of the later calls of a method are answered with the DigitallySigned bytes (a quarter of those: the whole body) of an earlier answer. Each call is judged by the per-call oracle of the client sub-property. Non-trivial: a replayed signature over different signed fields",
 	Quick: 2500, Thorough: 10000,
+	// a panic in a goroutine the client starts itself (TemporalLogClient.GetAcceptedRoots) cannot be recovered:
+	// every case is persisted before it runs so that the driver can attribute the abort
+	Crashy: true,
 }, genSess, checkSess)
